@@ -3,6 +3,7 @@
     Model/Json.v; nothing here is used by the theorems of Properties/C20.v. *)
 From Coq Require Import List NArith ZArith Bool.
 From Tongo Require Import Lib.Bits Lib.Res Model.BitString Model.BitStringD Model.BocParse Model.JsonText Model.Json.
+From Tongo Require Model.Address.
 Import ListNotations.
 Local Open Scope N_scope.
 
@@ -70,3 +71,20 @@ Lemma print_roundup_refuted :
   print_bitstring_bs_roundup on_value = Ok (quote [66; 55; 95])
   /\ parse_bitstring (quote [66; 55; 95]) = Ok [true; false; true; true; false; true; true].
 Proof. vm_compute. split; reflexivity. Qed.
+
+(** * user-friendly account text: accepting MORE than 36 decoded bytes *)
+(* a design that only rejects fewer than 36 bytes and reads the address from the
+   first 36 *)
+Definition parse_human_bytes_prefix (bs : list N) : res (N * Z * list N) :=
+  if short 36 bs then Err EOther else Address.parse_human_bytes (firstn 36 bs).
+
+(* the 36 bytes of a genuine address (flag, workchain 0, 32 x AB, CRC16) followed by 01 02 03 *)
+Definition long_human_bytes : list N :=
+  Address.human_bytes Address.crc16_table_ref true false 0 (repeat 0xAB 32) ++ [1; 2; 3].
+
+(* the decoder as it is rejects them; the prefix design silently returns the
+   address spelled by the first 36 bytes *)
+Lemma human_prefix_refuted :
+  Address.parse_human_bytes long_human_bytes = Err EOther
+  /\ exists f, parse_human_bytes_prefix long_human_bytes = Ok (f, 0%Z, repeat 0xAB 32).
+Proof. vm_compute. split; [reflexivity|eexists; reflexivity]. Qed.
